@@ -14,6 +14,7 @@ Model: Model/Swapper.lean.
 -/
 import PygyroVerif.Model.Swapper
 import PygyroVerif.Lemmas.TransposeCore
+import PygyroVerif.Lemmas.RouteValid
 
 namespace PygyroVerif.C03
 open PygyroVerif PygyroVerif.Addr
@@ -190,6 +191,22 @@ theorem driver_comm_axes (P0 P1 : Nat) (ext : List Nat) :
     have hraw : (driverSwapper P0 P1 ext).nprocsRaw.getD 2 [] = [P1] := by simp [driverSwapper]
     rw [hraw]
     simp [Swapper.chooseStep, choose_axial]
+
+/-! ### 2b. chains of steps -/
+
+/-- for every grouping the constructor accepts, every stored route between two different layouts of the swapper is a
+    non-empty path of direct connections (pairs accepted by `_compatibleLayout`) ending at the destination — whatever
+    the iteration order of the set of unvisited names.  Each hop is then an equal / scatter / gather step or a handler
+    transpose, and `C01.route_transpose_correct_*` (stated for an arbitrary step contract) carries the field along. -/
+theorem swapper_route_valid (S : Swapper) (order : List Nat) (hn : S.allNames.length ≠ 1)
+    (hfull : (S.routes order).2 = true) :
+    ∀ a b, a < S.allNames.length → b < S.allNames.length → a ≠ b →
+      RouteValid.ValidPath S.connections a b ((S.routes order).1.r a b) ∧
+      ((S.routes order).1.r a b).length = (S.routes order).1.d a b := by
+  have hc : RouteValid.ConnOK S.connections S.allNames.length := by
+    unfold Swapper.connections
+    exact RouteValid.connectionsOf_ok _ _
+  exact RouteValid.routes_valid_of_connected S.allNames S.connections order hc hn hfull
 
 /-! ### 3. finding F9 -/
 
